@@ -1,17 +1,49 @@
 //! One module per property; `dispatch` selects by id.
 use crate::engine::Args;
 
+pub mod c01;
+pub mod c02;
+pub mod c03;
 pub mod c04;
 pub mod c05;
 pub mod c06;
 pub mod c07;
+pub mod c08;
+pub mod c09;
+pub mod c10;
+pub mod c11;
+pub mod c12;
+pub mod c13;
+pub mod c14;
+pub mod c15;
+pub mod c16;
+pub mod c17;
+pub mod c18;
+pub mod c19;
+pub mod c20;
 
 pub fn dispatch(args: &Args) -> i32 {
     match args.id.as_str() {
+        "C01" => c01::run(args),
+        "C02" => c02::run(args),
+        "C03" => c03::run(args),
         "C04" => c04::run(args),
         "C05" => c05::run(args),
         "C06" => c06::run(args),
         "C07" => c07::run(args),
+        "C08" => c08::run(args),
+        "C09" => c09::run(args),
+        "C10" => c10::run(args),
+        "C11" => c11::run(args),
+        "C12" => c12::run(args),
+        "C13" => c13::run(args),
+        "C14" => c14::run(args),
+        "C15" => c15::run(args),
+        "C16" => c16::run(args),
+        "C17" => c17::run(args),
+        "C18" => c18::run(args),
+        "C19" => c19::run(args),
+        "C20" => c20::run(args),
         other => {
             eprintln!("unknown property id {other}");
             2
